@@ -109,7 +109,8 @@ namespace nmtools::index::impl
                         auto b = at(bshape,bi);
                         using common_t = meta::promote_index_t<decltype(a),decltype(b)>;
                         success = ((common_t)a==(common_t)b) || (a==1) || (b==1);
-                        at(res,si) = (common_t)a > (common_t)b ? (common_t)a : (common_t)b;
+                        // the extent that is not 1 (NumPy): for positive extents the maximum, but 0 with 1 gives 0
+                        at(res,si) = (a==1) ? (common_t)b : (common_t)a;
                     }
                     else if (bi<0) {
                         auto a = at(ashape,ai);
